@@ -51,6 +51,8 @@ def _run_one(i):
             d = o.as_dict()
             if o.status == "unknown" and getattr(o, "smt2", None):
                 d["smt2"] = o.smt2
+            if getattr(o, "xcheck", None):
+                d["xcheck"] = o.xcheck
             out.append(d)
         return i, out, st, None
     except Exception:  # noqa: BLE001
@@ -166,6 +168,20 @@ def check_property(mod, world, tier="quick", seed=0):
             obligs.extend(extra(world))
         except Exception:  # noqa: BLE001
             crashes.append(("extra_checks", traceback.format_exc()))
+    # outcome coverage of case-split units: every outcome of the contract must be reached in at least one arm of the split
+    groups = {}
+    for u, st in zip(units, stats):
+        if u.case and "unsupported" not in st:
+            gname = u.name[: u.name.rfind("[")]
+            gset = groups.setdefault(gname, {"wanted": set(st.get("wanted", [])), "seen": set()})
+            for k in st.get("outcomes", {}):
+                gset["seen"].add(k)
+    for gname, gset in groups.items():
+        for k in sorted(gset["wanted"]):
+            hit = k in gset["seen"] or (k == "normal" and "yield" in gset["seen"]) or any(s_.startswith("raise:") and k.startswith("raise:") and
+                                           world.lib.exc_class(s_[6:]).is_subclass_of(world.lib.exc_class(k[6:])) for s_ in gset["seen"])
+            if not hit:
+                obligs.append({"name": f"cover/{k}", "tag": "cover", "status": "uncovered", "secs": 0.0, "backend": "z3", "unit": gname + "[all arms]", "path": [], "model": None})
     unsupported_units = []
     for name, err in crashes:
         if err.startswith("unsupported: ") and hasattr(mod, "bounded_search"):
@@ -206,6 +222,22 @@ def check_property(mod, world, tier="quick", seed=0):
             rep.say(f"UNDECIDED property={prop} unit={name}: outside the deductive subset and the bounded search found no failing input")
             rep.bump(EXIT_UNDECIDED)
 
+    # thorough tier: cross-solver check of a sample of discharged obligations (a disagreement is an engine error)
+    xres = {"checked": 0, "agree": 0, "cvc5_unknown": 0, "disagree": []}
+    for ob in obligs:
+        x = ob.pop("xcheck", None)
+        if x:
+            ans = cvc5_decide(x, timeout_s=15)
+            xres["checked"] += 1
+            if ans == "unsat":
+                xres["agree"] += 1
+            elif ans == "unknown":
+                xres["cvc5_unknown"] += 1
+            else:
+                xres["disagree"].append(ob["name"] + "|" + ob["unit"])
+    if xres["disagree"]:
+        rep.say(f"ENGINE-ERROR property={prop}: z3 discharged but cvc5 refutes: {xres['disagree'][:3]}")
+        rep.bump(EXIT_ENGINE)
     # second back end for unknowns
     by_backend = {"z3": {"count": 0, "secs": 0.0}, "cvc5": {"count": 0, "secs": 0.0}}
     for ob in obligs:
@@ -412,6 +444,8 @@ def check_property(mod, world, tier="quick", seed=0):
         cov["bounded"] = bounded
     if assumption_checks is not None:
         cov["assumption_checks"] = assumption_checks
+    if xres["checked"]:
+        cov["cross_solver_sample"] = xres
     ev = {"property_id": prop, "tier": tier, "seed": seed, "level": level, "coverage": cov,
           "assumptions": list(getattr(mod, "ASSUMPTIONS", [])), "wall_s": round(time.time() - rep.t0, 2),
           "violations": rep.violations}
